@@ -9,7 +9,7 @@ item of the model section that holds ``X``, ``ParameterType`` a reference to a p
 *not* by calling the library's attribute discovery) enumerates every place where a generated model
 names a model item or a parameter.  Mutations: each reference renamed in turn to an undefined label
 (a fresh label / a label that is only defined in *another* section / a near miss of the original),
-each referenced parameter removed from the parameter set in turn, unique megacomplexes duplicated
+the definition of each referenced item deleted in turn, each referenced parameter removed from the parameter set in turn, unique megacomplexes duplicated
 (same label twice, and a sibling of the same type under another label), exclusive ones combined.
 
 Clauses (``<sub>.<what>``):
@@ -278,6 +278,25 @@ def _run_rename(case, pos, variant, sub, clause_kind):
     return vname
 
 
+def _run_remove_definition(case, section, label, users, sub, clause_kind):
+    """The definition of a referenced item deleted: every reference to it dangles."""
+    mutated = copy.deepcopy(case["spec"])
+    del mutated[section][label]
+    model, params = _model_and_params(case, mutated)
+    what = f"definition {section}/{label} removed (referenced from {users})"
+    rep0, rep, ok, srep = _validate_all(model, params, f"{sub}.internal_error", what)
+    _check_named((rep0, rep, srep), ok, label, f"{sub}.unreported[{clause_kind}]", what)
+
+
+def _referenced_definitions(poss, target):
+    """label -> sorted 'where' of the references to items of model section ``target``."""
+    out: dict = {}
+    for p in poss:
+        if p["kind"] == "item" and p["target"] == target:
+            out.setdefault(p["label"], set()).add(p["where"])
+    return {k: sorted(v) for k, v in out.items()}
+
+
 def _tags(case, poss, extra=()):
     tags = sorted({f"pos:{p['where']}" for p in poss}) + list(extra)
     nontrivial = any(p["depth"] >= 2 or p["structure"] != "scalar" for p in poss)
@@ -298,6 +317,10 @@ def prop_item_refs(case):
     variants = set()
     for i, p in enumerate(poss):
         fails.guard(lambda: variants.add(_run_rename(case, p, (case["mut_seed"] + i) % 3, "item", p["where"])))
+    for target in ("irf", "initial_concentration", "k_matrix", "shape"):
+        for lab, users in _referenced_definitions(poss, target).items():
+            fails.guard(lambda: _run_remove_definition(case, target, lab, users, "item", users[0]))
+            variants.add("definition_removed")
     fails.raise_if_any()
     return _tags(case, poss, [f"variant:{v}" for v in sorted(variants)])
 
@@ -310,6 +333,13 @@ def prop_dataset_megacomplex(case):
     variants = set()
     for i, p in enumerate(poss):
         fails.guard(lambda: variants.add(_run_rename(case, p, (case["mut_seed"] + i) % 3, "dsmc", p["where"])))
+    mcs = case["spec"]["megacomplex"]
+    for lab, users in _referenced_definitions(poss, "megacomplex").items():
+        # the model class is made from the megacomplex types: only remove a definition whose type stays present
+        if sum(1 for m in mcs.values() if m["type"] == mcs[lab]["type"]) < 2:
+            continue
+        fails.guard(lambda: _run_remove_definition(case, "megacomplex", lab, users, "dsmc", users[0]))
+        variants.add("definition_removed")
     fails.raise_if_any()
     return _tags(case, poss, [f"variant:{v}" for v in sorted(variants)])
 
@@ -346,6 +376,10 @@ def prop_dataset_group(case):
             _check_named((rep0, rep, srep), ok, new, "group.unreported[dataset.group]", what + consequence)
 
         fails.guard(run)
+    used_groups = {ds["group"]: dl for dl, ds in spec["dataset"].items() if ds.get("group", "default") != "default"}
+    for g, dl in used_groups.items():
+        fails.guard(lambda: _run_remove_definition(case, "dataset_groups", g, [f"dataset/{dl}/group"], "group", "dataset.group"))
+        variants.add("definition_removed")
     fails.raise_if_any()
     return {"nontrivial": True, "tags": [f"variant:{v}" for v in sorted(variants)] + (["dataset_on_implicit_default"] if n_default else [])}
 
